@@ -233,7 +233,7 @@ else:
         current_path = f"{path}.{name}" if path else name
 
         if value is None:
-            if _is_optional(expected):
+            if _is_optional(expected) or expected is Any:
                 return None
             raise ValidationError("field required", current_path, "missing")
 
@@ -556,6 +556,7 @@ else:
         __model_fields__: ClassVar[Dict[str, Field]] = {}  # type: ignore[valid-type]
         __model_required__: ClassVar[Set[str]] = set()
         __field_aliases__: ClassVar[Dict[str, str]] = {}
+        __model_any_fields__: ClassVar[Set[str]] = set()
 
         # PERFORMANCE: Type resolution cache (shared across all instances)
         # Key: (class_name, field_name, type_id) -> resolved_type
@@ -571,6 +572,7 @@ else:
             cls.__model_fields__ = {}
             cls.__model_required__ = set()
             cls.__field_aliases__ = {}
+            cls.__model_any_fields__ = set()
 
             # Analyze type hints and class attributes
             try:
@@ -596,6 +598,9 @@ else:
                 if field.alias:
                     cls.__field_aliases__[name] = field.alias
 
+                if hint is Any:
+                    cls.__model_any_fields__.add(name)
+
                 # Handle requirements
                 if isinstance(hint, str):
                     if field.required:
@@ -609,12 +614,13 @@ else:
         def __init__(self, **data: Any):
             # Process aliases
             processed_data = self._process_aliases(data)
+            provided = set(processed_data)
 
             # Build field values
             values = self._build_field_values(processed_data)
 
             # Validate required fields
-            self._validate_required_fields(values)
+            self._validate_required_fields(values, provided)
 
             # Validate types
             self._validate_types(values)
@@ -656,11 +662,18 @@ else:
 
             return values
 
-        def _validate_required_fields(self, values: Dict[str, Any]):
+        def _validate_required_fields(
+            self, values: Dict[str, Any], provided: Optional[Set[str]] = None
+        ):
             """Validate that all required fields are present."""
             missing = []
+            any_typed = self.__class__.__model_any_fields__
             for name in self.__class__.__model_required__:
                 if values.get(name) is None:
+                    # An explicit null is a legitimate value for a field typed Any
+                    # (e.g. a JSON-RPC response with "result": null)
+                    if provided is not None and name in provided and name in any_typed:
+                        continue
                     missing.append(name)
 
             if missing:
